@@ -17,6 +17,8 @@ EXTENDS VTConsole, Json, CSV, IOUtils
 CONSTANTS Ws, Hs, SBs, TABs,     \* geometry scope
           Bytes,                 \* byte alphabet
           CurVals,               \* SetCursorPosition arguments (Big stands for 2^32-1)
+          Chunks,                \* byte sequences written with one Write call
+          Cols,                  \* default colours <<fg, bg>> of the console
           MaxOps,
           Kind,                  \* "rec": character-cell console;  "fb": cells show pixels (Fill ignores fg)
           Bug, Props,
@@ -139,8 +141,8 @@ AttachEv(gg, t1) == [k |-> "attach", w |-> gg.w, h |-> gg.h, sb |-> gg.sb, tab |
                     @@ Obs(t1)
 
 Init ==
-  \E w \in Ws, h \in Hs, sb \in SBs, tab \in TABs :
-    LET gg == [w |-> w, h |-> h, sb |-> sb, tab |-> tab, fg |-> 7, bg |-> 0]
+  \E w \in Ws, h \in Hs, sb \in SBs, tab \in TABs, col \in Cols :
+    LET gg == [w |-> w, h |-> h, sb |-> sb, tab |-> tab, fg |-> col[1], bg |-> col[2]]
         \* the terminal is attached while inactive (the order hal.linkTTYToConsole uses); the design mutant
         \* activates it first: AttachTo never draws, so the activation redraw is lost
         a0 == IF Bug = "ActiveAtAttach" THEN 1 ELSE 0
@@ -150,14 +152,21 @@ Init ==
        /\ m = mm.s /\ mismatch = FirstFail(Props, 0, mm.cs)
 
 Ops == {<<0, b>> : b \in Bytes} \cup {<<1, x, y>> : x \in CurVals, y \in CurVals} \cup {<<2, 0>>, <<2, 1>>}
+       \cup {<<3>> \o ch : ch \in Chunks}
+
+\* VT.Write: WriteByte for every byte of the slice
+RECURSIVE WriteAll(_, _, _)
+WriteAll(t0, bs, i) == IF i > Len(bs) \/ t0.panic THEN t0 ELSE WriteAll(WriteByte(t0, bs[i]), bs, i + 1)
 
 Step(op) ==
   LET t1 == CASE op[1] = 0 -> WriteByte(t, op[2])
               [] op[1] = 1 -> SetCursor(t, op[2], op[3])
-              [] OTHER     -> SetState(t, op[2])
+              [] op[1] = 2 -> SetState(t, op[2])
+              [] OTHER     -> WriteAll(t, Tail(op), 1)
       e  == (CASE op[1] = 0 -> [k |-> "w", b |-> op[2]]
                [] op[1] = 1 -> [k |-> "cur", x |-> op[2], y |-> op[3]]
-               [] OTHER     -> [k |-> "st", a |-> op[2]]) @@ Obs(t1)
+               [] op[1] = 2 -> [k |-> "st", a |-> op[2]]
+               [] OTHER     -> [k |-> "ws", bs |-> Tail(op), n |-> Len(op) - 1]) @@ Obs(t1)
       mm == Mon(m, e)
   IN /\ t' = [t1 EXCEPT !.calls = <<>>]
      /\ m' = mm.s /\ mismatch' = FirstFail(Props, nops + 1, mm.cs)
@@ -186,8 +195,8 @@ OpsSeq == SeqOf(Ops)
 RECURSIVE Sum(_, _)
 Sum(sq, i) == IF i > Len(sq) THEN 0 ELSE ((sq[i] % 251) * ((i % 13) + 1) + Sum(sq, i + 1)) % 65521
 StateChk == (Sum(t.data, 1) * 7 + t.cx * 3 + t.cy * 5 + t.vy * 11 + t.st * 13 + nops * 17
-             + g.w * 19 + g.h * 23 + g.sb * 29 + g.tab * 31) % 65521
-CaseRec(br) == [w |-> g.w, h |-> g.h, sb |-> g.sb, tab |-> g.tab, ops |-> [i \in 1..Len(script) |-> JOp(script[i])], br |-> br]
+             + g.w * 19 + g.h * 23 + g.sb * 29 + g.tab * 31 + g.fg * 37 + g.bg * 41) % 65521
+CaseRec(br) == [w |-> g.w, h |-> g.h, sb |-> g.sb, tab |-> g.tab, dfg |-> g.fg, dbg |-> g.bg, ops |-> [i \in 1..Len(script) |-> JOp(script[i])], br |-> br]
 EmitCase ==
   CASE EmitMode = "sample" ->
          (nops >= 1 /\ (StateChk + atoi(IOEnv.EMITSEED)) % EmitMod = 0) =>
